@@ -29,7 +29,9 @@ Proof.
 Qed.
 
 Definition universe_statement (U : list config) : Prop :=
-  forall cf, In cf U -> C18_outside_K_statement gen_flags cf /\ (racy cf = false -> C18_full_statement gen_flags cf).
+  forall cf, In cf U ->
+    C18_outside_K_statement gen_flags cf /\
+    (fl_busy_guard gen_flags = true \/ racy cf = false -> C18_full_statement gen_flags cf).
 
 Lemma conf_2x1 : shape_ok = true -> universe_statement U21.
 Proof. intros _. exact (check_universe_sound _ _ _ u21_ok). Qed.
@@ -44,7 +46,7 @@ Proof. intros _. exact (check_universe_sound _ _ _ u2112_ok). Qed.
 Lemma conf_3x1_evict : shape_ok = true -> universe_statement U31e.
 Proof. intros _. exact (check_universe_sound _ _ _ u31e_ok). Qed.
 
-Lemma k1_torn : exists s, reach gen_flags cfg_get_upd s /\ enabled gen_flags (cfg_max cfg_get_upd) s = [] /\
+Lemma k1_torn : exists s, reach old_flags cfg_get_upd s /\ enabled old_flags (cfg_max cfg_get_upd) s = [] /\
   ~ lin_spec (cfg_disk cfg_get_upd) (rev (g_hist s)) (disk (g_core s)) /\ final_agree s = false /\
   In (ERet 0 0 (RCont [])) (g_hist s) /\ mem (g_core s) = 2.
 Proof.
@@ -58,7 +60,7 @@ Proof.
   - apply Z.eqb_eq. assumption.
 Qed.
 
-Lemma k1_acct : exists s, reach gen_flags cfg_get_upd s /\ enabled gen_flags (cfg_max cfg_get_upd) s = [] /\
+Lemma k1_acct : exists s, reach old_flags cfg_get_upd s /\ enabled old_flags (cfg_max cfg_get_upd) s = [] /\
   lin_spec (cfg_disk cfg_get_upd) (rev (g_hist s)) (disk (g_core s)) /\ final_agree s = false /\ mem_agrees (g_core s) = false.
 Proof.
   destruct (refutes_sound _ _ _ _ k1_acct_ok) as (s & Hr & He & Hc). exists s.
@@ -69,7 +71,7 @@ Proof.
   - apply negb_true_iff. assumption.
 Qed.
 
-Lemma k2 : exists s, reach gen_flags cfg_get_unl s /\ enabled gen_flags (cfg_max cfg_get_unl) s = [] /\
+Lemma k2 : exists s, reach old_flags cfg_get_unl s /\ enabled old_flags (cfg_max cfg_get_unl) s = [] /\
   ~ lin_spec (cfg_disk cfg_get_unl) (rev (g_hist s)) (disk (g_core s)) /\ final_agree s = false /\
   In (ERet 0 0 (RExn EAssert)) (g_hist s) /\ mem (g_core s) = -5.
 Proof.
@@ -83,7 +85,7 @@ Proof.
   - apply Z.eqb_eq. assumption.
 Qed.
 
-Lemma k3 : exists s, reach gen_flags cfg_upd_unl s /\ enabled gen_flags (cfg_max cfg_upd_unl) s = [] /\
+Lemma k3 : exists s, reach old_flags cfg_upd_unl s /\ enabled old_flags (cfg_max cfg_upd_unl) s = [] /\
   ~ lin_spec (cfg_disk cfg_upd_unl) (rev (g_hist s)) (disk (g_core s)) /\ final_agree s = false /\
   In (ERet 0 0 (RExn EAssert)) (g_hist s).
 Proof.
